@@ -61,6 +61,9 @@ def build_plan(choice: Choice, tier):
         p["n_files"] = n
         p["raise_after"] = d(n + 1, "raise_at") if d(2, "raises") == 1 else None
         p["reenter"] = d(3, "reenter") == 2
+        # fault: one of the files is missing when the pool is entered for the first time (r modes), the error
+        # propagates; the file then appears and the same pool object is used again
+        p["missing_at_first_enter"] = d(n, "missing.which") if (d(4, "missing") == 3 and p["modes"] in ("r", "rb")) else None
     else:
         p["children"] = 1 + d(3, "children")
         p["child_creates"] = [1 + d(3, "child.creates") for _ in range(p["children"])]
@@ -188,6 +191,17 @@ def run_filepool(plan, tmpdir):
     mode = plan["modes"]
     pool = files.FilePool(paths, mode)
     rounds = 2 if plan["reenter"] else 1
+    miss = plan.get("missing_at_first_enter")
+    if miss is not None:
+        os.rename(paths[miss], paths[miss] + ".away")
+        try:
+            with pool:
+                v("enter-with-missing-file", "entering the pool with a missing file did not raise")
+        except OSError:
+            pass
+        except Exception as e:  # noqa
+            v(f"exception:{type(e).__name__}", "failed enter: " + repr(e))
+        os.rename(paths[miss] + ".away", paths[miss])
     for r in range(rounds):
         raised = None
         try:
@@ -364,7 +378,7 @@ class Spec:
         "files given to FilePool can all be opened in the chosen mode",
         "sampling, not enumeration",
     ]
-    PROBES = ["child-forked-before-flush", "exception-in-body", "external-delete", "multi-runs"]
+    PROBES = ["child-forked-before-flush", "exception-in-body", "external-delete", "multi-runs", "failed-enter-then-retry"]
     RULE = ("one run = drawn family (tmp-single / filepool / tmp-multi), seeded operation history, exception position, "
             "fork points of the children relative to the parent's history and (multi) a seeded schedule with line-level "
             "pre-emption; non-trivial = a history with at least 3 operations (single) or at least two tasks runnable at "
@@ -403,6 +417,8 @@ class Spec:
                 probes["exception-in-body"] = 1
             if any(o[0] == "external_delete" for o in plan.get("ops", [])):
                 probes["external-delete"] = 1
+            if plan.get("missing_at_first_enter") is not None:
+                probes["failed-enter-then-retry"] = 1
             emit({"verdict": "violation" if viol else "ok", "violations": viol, "digest": h, "signature": h[:16],
                   "steps": stats["ops"], "switches": 0, "preemptions": 0, "sync_events": stats["ops"], "max_live": 1,
                   "probes": probes, "faults": ({"exception-in-body": 1} if probes.get("exception-in-body") else {}),
